@@ -36,13 +36,13 @@ def run(ctx):
         mcs = M.design(ctx, cfgs, workers)
         rev_case = M.reverse_counterexample(ctx, workers)
         ctx.log("MountPlan_rev.cfg: counterexample history %s" % json.dumps(rev_case["updates"]))
-        sim_cases, sim_pred = M.simulate_histories(ctx, ctx.pick(40, 600), ctx.seed)
+        sim_cases, sim_pred = M.simulate_histories(ctx, ctx.pick(30, 600), ctx.seed)
     else:
         mcs = [{"cfg": "(design part skipped: VERIF_C28_PARTS)", "generated": 1, "distinct": 1, "depth": 0, "wall_s": 0}]
         e = {"p": "a/g", "typ": "file", "origin": "layout", "v": 1}
         rev_case, sim_cases, sim_pred = {"case": "tlc-rev", "rootfs": False, "updates": [[e], [e], []]}, [], {}
     if "plan" not in parts:
-        cod = M.codec(ctx, ctx.pick("MountCodec.cfg", "MountCodec_thorough.cfg"), ctx.pick(2000, 40000))
+        cod = M.codec(ctx, ctx.pick("MountCodec.cfg", "MountCodec_thorough.cfg"), ctx.pick(1000, 40000))
         return Result(level="model_checking", coverage={"states": 1, "transitions": 1, "traces_validated_against_impl": cod["rows"],
                                                         "samples": cod["samples"], "codec": {k: v for k, v in cod.items() if k != "violations"},
                                                         "partial_run": sorted(parts)},
@@ -53,7 +53,8 @@ def run(ctx):
     ctx.log("driver built")
     summ = M.run_driver(ctx, binary, "real", {"VERIF_ENUM_K": 2, "VERIF_ENUM3_POOL": ctx.pick(0, 6),
                                               "VERIF_ENUM_RELATED": ctx.pick(1, 0),
-                                              "VERIF_N": ctx.pick(400, 6000), "VERIF_CHUNK": ctx.pick(1000, 4000)})
+                                              "VERIF_ENUM_POOL_IDX": ctx.pick("0,2,4,6,7,10,12,13,14", ""),
+                                              "VERIF_N": ctx.pick(300, 6000), "VERIF_CHUNK": ctx.pick(500, 4000)})
     ctx.log("real histories: %s" % {k: v for k, v in summ.items() if k != "files"})
     # T->I: TLC's counterexample and simulated behaviours, replayed on the real code
     rp = os.path.join(ctx.subdir("replay_in"), "cases.json")
@@ -65,7 +66,7 @@ def run(ctx):
     control = M.corrupt_control(ctx, summ["files"])
     ctx.log("corruption control: %s" % control)
 
-    violations, per_clause = M.violations_from(val["failing"])
+    violations, per_clause, informational = M.violations_from(val["failing"])
     # vacuity of the trace validation: the antecedents of the clauses must have been exercised by real updates
     cov = val["cov"]
     for k, need in (("mustkeep", 100), ("unmountpairs", 100), ("mountpairs", 20), ("kepthelpers", 100),
@@ -96,7 +97,7 @@ def run(ctx):
 
     # ---- 3. codec ---------------------------------------------------------------------------------------
     if "codec" in parts:
-        cod = M.codec(ctx, ctx.pick("MountCodec.cfg", "MountCodec_thorough.cfg"), ctx.pick(2000, 40000))
+        cod = M.codec(ctx, ctx.pick("MountCodec.cfg", "MountCodec_thorough.cfg"), ctx.pick(1000, 40000))
     else:
         cod = {"violations": [], "rows": 0, "drift": 0, "random": 0, "real_failures": 0, "spec_predicted_failures": 0, "samples": []}
     violations += cod["violations"]
@@ -114,6 +115,7 @@ def run(ctx):
         "real_updates_evaluated_by_tlc": val["lines"],
         "real_updates_with_violated_clause": val["bad_lines"],
         "violated_clauses": per_clause,
+        "informational_only": informational,
         "distinct_current_desired_pairs": val["distinct_cur_des"],
         "clause_antecedents_exercised": cov,
         "driver": {k: v for k, v in summ.items() if k != "files"},
